@@ -625,3 +625,15 @@ func ResolveRequested(requested []int, count int) ([]int, error) {
 
 // OpenFailed violates R20.9: the cause is flattened into text.
 func OpenFailed(name string, err error) error { return fmt.Errorf("failed to open %q: %v", name, err) }
+
+// TableFromBounds violates R15.12: the delimiter is tied to row 0, the loop starts at minRow.
+func TableFromBounds(rows [][]string, minRow int) string {
+	var sb strings.Builder
+	for row := minRow; row < len(rows); row++ {
+		sb.WriteString("| " + strings.Join(rows[row], " | ") + " |\n")
+		if row == 0 {
+			sb.WriteString("|---|\n")
+		}
+	}
+	return sb.String()
+}
